@@ -16,6 +16,7 @@ since the last collection (`C03_roots_partial`).
 The memory-safety clause (raw pointers of `intern_ref`) is outside this model: see PARTIAL.
 -/
 import IsoVerif.Lemmas.Pico
+import IsoVerif.Lemmas.PicoGc
 
 namespace IsoVerif.Props.C03
 open IsoVerif.Pico
@@ -64,5 +65,54 @@ theorem C03_witness_gc_panic_after_failed_call :
   absurd (H [.call 0 0] [] rfl).1 (by decide +kernel)
 
 theorem C03_statement_false : ¬ C03_statement := fun H => C03_witness_lru_evicted (H 8 1 _ _)
+
+/-! ### what is proved -/
+
+/-- The LRU (`LruCache::put` = move to front + evict the least recent) refines "the `cap` most
+recently used distinct ids, most recent first" of the sequence it is fed. -/
+theorem C03_lru_spec (cap : Nat) (hcap : 1 ≤ cap) (calls : List NodeId) :
+    calls.foldl (lruPut cap) [] = lastDistinct cap calls := lru_spec cap hcap calls
+
+example : 1 ≤ 2 ∧ ([⟨0, 0⟩, ⟨1, 0⟩, ⟨0, 0⟩, ⟨2, 5⟩, ⟨0, 0⟩] : List NodeId).foldl (lruPut 2) []
+    = [⟨0, 0⟩, ⟨2, 5⟩] := by decide
+
+/-- a history after which the collection with capacity 1 removes two nodes and with capacity 2 none -/
+def histGc : List Op := [.set 0 1, .set 1 7, .call 0 0, .call 1 1]
+
+/-- A collection that returns only removes nodes: what is there afterwards was there before,
+unchanged. -/
+theorem C03_gc_only_removes (s s' : Storage) (h : gc s = (s', .ok ())) (n : NodeId) (r : Rev) :
+    alookup s'.derived n = some r → alookup s.derived n = some r := gc_only_removes s s' h n r
+
+example : ∃ s s' n r, gc s = (s', .ok ()) ∧ alookup s'.derived n = some r ∧
+    s'.derived.length < s.derived.length :=
+  ⟨after 8 1 progLru histGc, (gc (after 8 1 progLru histGc)).1, ⟨1, 1⟩, ⟨7, 1, 1, [⟨.source (.src 1), 1⟩]⟩,
+    Prod.ext rfl (by decide +kernel), by decide +kernel, by decide +kernel⟩
+
+/-- A collection that returns touches nothing but `derived`, `top_level_calls` and the LRU. -/
+theorem C03_gc_frame (s s' : Storage) (h : gc s = (s', .ok ())) :
+    s'.epoch = s.epoch ∧ s'.srcs = s.srcs ∧ s'.retained = s.retained ∧ s'.maps = s.maps ∧
+    s'.runs = s.runs ∧ s'.topCalls = [] ∧ s'.lru = gcLru s := gc_frame s s' h
+
+example : ∃ s s', gc s = (s', .ok ()) ∧ s.topCalls ≠ [] ∧ s.lru ≠ gcLru s :=
+  ⟨after 8 1 progLru histGc, (gc (after 8 1 progLru histGc)).1,
+    Prod.ext rfl (by decide +kernel), by decide +kernel, by decide +kernel⟩
+
+/-- The collector keeps every node reachable from ITS roots, with unchanged value, stamps and
+dependency list. -/
+theorem C03_gc_keeps_reachable (s s' : Storage) (h : gc s = (s', .ok ())) (root n : NodeId)
+    (hr : root ∈ gcRoots s) (hreach : Reach s.derived root n) :
+    alookup s'.derived n = alookup s.derived n := gc_keeps_reachable s s' h root n hr hreach
+
+example : ∃ s s' root n, gc s = (s', .ok ()) ∧ root ∈ gcRoots s ∧ Reach s.derived root n ∧ n ≠ root :=
+  ⟨after 8 2 progLru histGc, (gc (after 8 2 progLru histGc)).1, ⟨0, 0⟩, ⟨1, 0⟩,
+    Prod.ext rfl (by decide +kernel), by decide +kernel,
+    Reach.step (r := ⟨1, 1, 1, [⟨.derived ⟨1, 0⟩, 1⟩]⟩) (Reach.refl _) (by decide +kernel) (by decide +kernel),
+    by decide⟩
+
+/-- The collector's roots: the LRU after the pending top-level calls have been folded in, then the
+retained ids. -/
+theorem C03_roots_are_spec (s : Storage) :
+    gcRoots s = s.topCalls.foldl (lruPut s.cap) s.lru ++ s.retained.map (·.1) := roots_are_spec s
 
 end IsoVerif.Props.C03
